@@ -528,6 +528,11 @@ def shelve_cmd(ctx, rng, p, pre, basis, msg, basis_paths):
         seen.add((it[0], it[1]))
     stats["items"] = [(it[0], item_fid(it)) for it in rec["items"]]
     stats["n_selected"] = len(rec["items"])
+    if exc is not None and spec and not rec["items"]:
+        # iter_changes(specific_files=...) itself failed before anything was offered (e.g. a named path below an unversioned
+        # file that replaced a removed directory: lstat -> ENOTDIR -> AssertionError in the dirstate walker): not shelving
+        ctx.hist("cmd:file-args:iter_changes-raised:%s" % type(exc).__name__)
+        return sel, "cmd", "no-changes", stats
     if exc is not None:
         return sel, "cmd", exc, stats
     ctx.count("oracle_cmd_shelve")
@@ -545,7 +550,13 @@ def shelve_cmd(ctx, rng, p, pre, basis, msg, basis_paths):
                 if any(q == s_ or q.startswith(s_ + "/") for q in qs2 for s_ in closure) and not closure.issuperset(qs2):
                     closure.update(qs2)
                     grew = True
-        for kind, fid in got:
+        # when a directory above a named path is itself changed (missing, removed, renamed ...) iter_changes widens the set in ways
+        # neither the statement nor the command help describes: not judged then
+        got_paths = {q for _k, fid2 in got for q in (pre.paths.get(fid2), basis_paths.get(fid2)) if q}
+        widened = any(c.startswith(q + "/") for c in closure for q in got_paths)
+        if widened:
+            ctx.hist("cmd:file-args:changed-ancestor-not-judged")
+        for kind, fid in ([] if widened else got):
             qs = [q for q in (pre.paths.get(fid), basis_paths.get(fid)) if q]
             if not any(related(q, closure) for q in qs):
                 ctx.fail("cmd-shelve:file-args:unrelated-change-shelved", "%s of %s (%r) shelved for file arguments %r" % (kind, fid, qs, spec), {"argv": stats["argv"]})
@@ -671,9 +682,23 @@ def compare_post(ctx, p, rd, basis):
     occupants = {f for f, q in pre.paths.items() if q in reused_paths or any(q.startswith(r + "/") for r in reused_paths)}  # incl. what lives below
     diffs = M.diff_states(exp, act.work, pre.root, skip=info["silent"])
     bad = set()
+    taken = set(info["reused"]) | occupants
+
+    def touched_by_reuse(fid):
+        """fid, or a directory above it in the basis or in the working tree, is a deleted entry whose path was taken or the taker."""
+        for state in (basis, pre.work):
+            x, n = fid, 0
+            while x in state and n < 50:
+                if x in taken:
+                    return True
+                x, n = state[x].parent, n + 1
+            if x in taken:
+                return True
+        return False
+
     for fid, aspect, e, a in diffs:
         bad.add(fid)
-        if fid in info["reused"] or fid in occupants:
+        if taken and touched_by_reuse(fid):
             fail("post-shelve:deleted-path-taken-by-renamed-entry", "fid %s %s: expected %s got %s" % (fid, aspect, M.short(e), M.short(a)))
         else:
             fail("post-shelve:%s:%s" % (aspect, label_key(rd, fid, aspect)), "fid %s (%s) [%s]: expected %s got %s" % (fid, pre.paths.get(fid) or rd.basis_paths.get(fid), sel.label(fid), M.short(e), M.short(a)))
@@ -870,6 +895,10 @@ def unshelve(ctx, rng, p, sid, shelves, via, rd=None):
         try:
             merger = un.make_merger()
             for fid, want in (rd.stats.get("shelf_lines", {}) if rd is not None else {}).items():
+                if fid in rd.replaced:
+                    # reading a replaced path from the shelf's preview tree is the known PreviewTree._path2trans_id ambiguity
+                    ctx.hist("shelf-content:not-judged:path-shared-with-deleted-entry")
+                    continue
                 ctx.count("oracle_shelf_content")
                 try:
                     got = merger.other_tree.get_file_text(merger.other_tree.id2path(fid.encode()))
